@@ -182,3 +182,33 @@ prop(
         "the refusal branch for limits above 1 048 576 is reached by a getrlimit value fault in C04, not here",
     ],
 )
+
+FAULT_SCENARIOS = ("17 start scenarios that change the call sequence (default; all pipes nonblocking; all discard; paths + stderr->stdout; handle/FILE/handle; parent shorthand; "
+                   "start-up input; working directory + relative program; env empty + extras; env extend + extras; fork mode; file shorthand; parent stream absent; and four "
+                   "naturally failing ones: missing program, bad working directory, bad redirect path, non-executable file)")
+
+prop(
+    "C04",
+    title="Start is all-or-nothing and reports the real cause of failure",
+    level="fault_enumeration",
+    engine="real",
+    campaigns=[dict(bin="C04.rel", sweep=True, random=dict(quick=2000, thorough=40000))],
+    level_text=("Every system/library call that reproc_start makes - in the parent and in the forked child before exec - is a fault point discovered from a fault-free run of each scenario; "
+                "quick enumerates every (scenario, fault point, first two applicable errnos) singly, thorough every applicable errno and pairs (second fault at each of the next 120 "
+                "fault points of the path actually taken under the first). Outcome-based oracle: failure => the errno of a real cause, no child left, handle restartable; success => "
+                "positive pid of the forked child and the program's own hello. Exhaustive over single fault points of the listed scenarios."),
+    level_note=("Fault injection is at the libc boundary of the compiled library (objcopy-renamed symbols), NDEBUG flavour as shipped; errnos per call from the man pages (DESIGN 3.3); "
+                "natural-failure errnos come from the harness performing the same operation itself."),
+    technique="exhaustive single-fault and paired-fault injection at the libc boundary (both sides of fork) + rapidcheck-sampled fault plans, outcome oracle with the child's own report",
+    rule=(FAULT_SCENARIOS + " x every fault point x errnos. Non-trivial: a naturally failing scenario, a child-side fault, or a parent-side fault after the first call (something to undo). "
+          "Distinct: (scenario, side, call index, call, errno/kind) of every fault."),
+    essential=dict(quick=["fault-free", "single-fault", "start-failed", "start-succeeded-under-fault", "scenario:fork-mode", "scenario:missing-program"],
+                   thorough=["fault-free", "single-fault", "fault-pair", "start-failed", "start-succeeded-under-fault"]),
+    exhaustive=dict(quick=True, thorough=True),
+    exhaustive_scope="all single fault points (first two errnos each in quick, all in thorough) of the 17 scenarios on both sides of fork; pairs are bounded (next 120 points, one errno each)",
+    assumptions=[
+        "RLIMIT_NOFILE is lowered to 64 during start so that the child's descriptor-closing loop stays short; its probing fcntl(F_GETFD) calls are not fault points",
+        "faults inside libc (e.g. execvp's PATH walk) are injected at the execvp boundary only; clock_gettime is not injected",
+        "an injected close failure still releases the descriptor (Linux semantics)",
+    ],
+)
